@@ -233,6 +233,62 @@ Proof.
   destruct ((Z.min x0 x1 <=? x) && (x <=? Z.max x0 x1)); [destruct (x1 =? x0); discriminate | exact IH].
 Qed.
 
+(* ---------- text tables: a text is encoded by a value of its own scale ---------- *)
+Lemma tscale_internal_in_scale s x :
+  tinv s = None -> tscale_internal s = Some x -> tscale_applies s x = true.
+Proof.
+  intros Hi H. unfold tscale_internal in H. rewrite Hi in H. apply find_some in H. exact (proj2 H).
+Qed.
+
+(* whatever the interval types of the limits are, a text without COMPU-INVERSE-VALUE which is encoded at all is
+   encoded by an internal value its scale applies to *)
+Theorem texttable_encodes_inside scales pd idf t s x :
+  filter (fun s => text_eqb (tconst s) t) scales = [s] -> tinv s = None ->
+  p2i (MTextTable scales pd idf) (CText t) = COk (CInt x) -> tscale_applies s x = true.
+Proof.
+  intros Hm Hi H. cbn [p2i] in H. rewrite Hm in H.
+  destruct (tscale_internal s) as [x'|] eqn:E; [|discriminate].
+  injection H as <-. now apply tscale_internal_in_scale.
+Qed.
+
+(* ... hence it is read back as that text when no other scale claims the value *)
+Theorem texttable_roundtrip scales pd idf t s x :
+  filter (fun s => text_eqb (tconst s) t) scales = [s] -> tinv s = None ->
+  p2i (MTextTable scales pd idf) (CText t) = COk (CInt x) ->
+  filter (fun s' => tscale_applies s' x) scales = [s] ->
+  exists t', tconst s = Some t' /\ bytes_eqb t' t = true /\ i2p (MTextTable scales pd idf) (CInt x) = COk (CText t').
+Proof.
+  intros Hm Hi H Hu. cbn [i2p]. rewrite Hu.
+  assert (In s (filter (fun s => text_eqb (tconst s) t) scales)) as Hin by (rewrite Hm; now left).
+  apply filter_In in Hin as [_ Ht]. unfold text_eqb in Ht.
+  destruct (tconst s) as [t'|]; [|discriminate]. exists t'. auto.
+Qed.
+
+(* a text declared valid (no default for the encoding direction, matched by one scale) is encoded *)
+Theorem texttable_valid_encodes scales pd t s :
+  filter (fun s => text_eqb (tconst s) t) scales = [s] ->
+  valid_phys (MTextTable scales pd None) (CText t) = true ->
+  exists x, p2i (MTextTable scales pd None) (CText t) = COk (CInt x).
+Proof.
+  intros Hm Hv. cbn [valid_phys] in Hv. apply existsb_exists in Hv as (s' & Hin & Hs').
+  apply andb_true_iff in Hs' as [Ht Hi].
+  assert (In s' (filter (fun s => text_eqb (tconst s) t) scales)) as Hf by (apply filter_In; auto).
+  rewrite Hm in Hf. destruct Hf as [<-|[]].
+  cbn [p2i]. rewrite Hm. destruct (tscale_internal s) as [x|]; [eexists; reflexivity | discriminate].
+Qed.
+
+(* the scales ]5, 10] "high" and [0, 5] "low": "high" is encoded as 6 (before the fix commit: as 5, which is "low"),
+   an open range without integer is not encodable and its text not valid *)
+Example texttable_open_limit_example :
+  let lim v t := Some (mkLimit (Some v) (Some t)) in
+  let low := mkT (lim 0 IClosed) (lim 5 IClosed) (Some [108]) None in
+  let high := mkT (lim 5 IOpen) (lim 10 IClosed) (Some [104]) None in
+  let none := mkT (lim 20 IOpen) (lim 21 IOpen) (Some [110]) None in
+  let m := MTextTable [low; high; none] None None in
+  p2i m (CText [104]) = COk (CInt 6) /\ i2p m (CInt 6) = COk (CText [104]) /\ i2p m (CInt 5) = COk (CText [108]) /\
+  p2i m (CText [110]) = CErr CEncode /\ valid_phys m (CText [110]) = false /\ valid_phys m (CText [104]) = true.
+Proof. vm_compute. repeat split. Qed.
+
 (* non-vacuity *)
 Example compu_examples :
   seg_i2p (mkSeg 1 3 2 None None 0) 3 = 5 /\ seg_p2i (mkSeg 1 3 2 None None 0) 5 = 3 /\
